@@ -161,6 +161,23 @@ Theorem streaming_kinds_table :
 Proof. reflexivity. Qed.
 Print Assumptions streaming_kinds_table.
 
+(* the streaming kind goa derives while the Method DSL runs does not depend on the order
+   in which Payload, StreamingPayload, Result, StreamingResult are declared (each at
+   most once): it is the designed one *)
+Theorem streaming_kind_independent_of_declaration_order ds : NoDup ds ->
+  kind_of_decls ds = designed_kind (has_decl DStreamingPayload ds) (has_decl DStreamingResult ds).
+Proof. exact (kind_of_decls_designed ds). Qed.
+Print Assumptions streaming_kind_independent_of_declaration_order.
+
+(* which payload attributes travel as request metadata: the listed ones and the
+   credentials, or, with a streaming payload, all of them; each is required there
+   exactly when the payload requires it (metadata_required_as_designed) *)
+Theorem request_metadata_attributes attrs explicit creds sp a :
+  In a (request_metadata_names attrs explicit creds sp) <->
+  if sp then In a attrs else In a explicit \/ In a creds.
+Proof. exact (request_metadata_names_In attrs explicit creds sp a). Qed.
+Print Assumptions request_metadata_attributes.
+
 (* ---- the request (response) message keeps exactly the payload (result) attributes
    that are not mapped to metadata (headers, trailers), in payload order *)
 Theorem message_is_payload_minus_metadata attrs removed a :
